@@ -70,4 +70,42 @@ CHECKS = {
              "multi-bucket request, or a retyped/reordered accepted write",
         assumptions=["float->integer conversion outside the target range is implementation-defined in Go and only counted"],
     ),
+    "C01": dict(
+        test="TestC01", level="fault_enumeration", shards=16, cmds=["mkwork", "mkrestart"], engine="crash-engine",
+        tiers=dict(quick=dict(checks=1, timeout=900), thorough=dict(checks=8, timeout=3400, env=dict(VERIF_MAXOPS=12))),
+        rule="rapid histories (sync mode, 2-3 buckets fixed/variable x 1Min/1H/1D/1Sec, two years, repeated intervals, "
+             "multi-bucket requests, explicit checkpoints) executed by the real server under strace; EVERY prefix of the "
+             "file-mutating system calls is re-materialised and restarted in a fresh process through the production "
+             "start-up path; oracle: every acknowledged write visible (fixed: last acknowledged value or a later issued "
+             "one; variable: present); evaluations = restarts; non-trivial = crash points where recovery had work "
+             "(an acknowledged write not covered by a checkpoint, or a write in flight), distinct by (history, k)",
+        assumptions=["process-crash model: completed system calls are durable, no call is torn",
+                     "the strace log order of calls is the order of their effects (single writer goroutine in sync mode)"],
+        technique="exhaustive crash-point enumeration of strace-recorded runs of generated histories, model oracle",
+        env=dict(VERIF_SHRINK="5s"),
+    ),
+    "C02": dict(
+        test="TestC02", level="fault_enumeration", shards=16, cmds=["mkwork", "mkrestart"], engine="crash-engine",
+        tiers=dict(quick=dict(checks=1, timeout=900), thorough=dict(checks=8, timeout=3400, env=dict(VERIF_MAXOPS=12))),
+        technique="exhaustive crash-point enumeration of strace-recorded runs of generated histories, model oracle",
+        env=dict(VERIF_SHRINK="5s"),
+        assumptions=["process-crash model: completed system calls are durable, no call is torn",
+                     "the strace log order of calls is the order of their effects (single writer goroutine in sync mode)"],
+        rule="as C01 (every syscall-prefix crash point of strace-recorded generated histories, fresh-process restart), "
+             "generator biased to variable-length buckets and explicit checkpoints; every row carries a unique tag; "
+             "oracle: every returned row is a row of an issued write with its value, each variable-length record at most "
+             "once, the in-flight transaction all-or-nothing across its buckets; non-trivial = crash points after the "
+             "first primary write of a transaction with variable-length records and before the covering checkpoint",
+    ),
+    "C03": dict(
+        test="TestC03", level="fault_enumeration", shards=16, cmds=["mkwork", "mkrestart"], engine="crash-engine",
+        tiers=dict(quick=dict(checks=1, timeout=900), thorough=dict(checks=8, timeout=3400, env=dict(VERIF_MAXOPS=12))),
+        technique="exhaustive crash-point enumeration of strace-recorded runs of generated histories, model oracle",
+        env=dict(VERIF_SHRINK="5s"),
+        assumptions=["process-crash model: completed system calls are durable, no call is torn",
+                     "the strace log order of calls is the order of their effects (single writer goroutine in sync mode)"],
+        rule="as C01, generator biased to repeated writes to the same variable-length interval (in-place rewrites); "
+             "oracle: restart exits 0 without panic and every bucket whose creating write was acknowledged answers an "
+             "all-time query; non-trivial = crash points strictly inside a primary-file write sequence",
+    ),
 }
